@@ -69,6 +69,16 @@ def handle : List String → Verdict
                      if inserted then "script-inserted" else "no-body", if nonce.isEmpty then "no-nonce" else "nonce"],
             sig := "mod;rewritten" }
     | _, _, _, _, _, _, _, _, _ => .badOp
+  | ["overlap", tag, encH, wantLen, wantSum, gotLen, gotSum, statusS, rEncH, rCLH, wireLen] =>
+    -- overlapping responses: each must be exactly what it would be alone (bodies compared by length and SHA-256,
+    -- computed by the harness)
+    match hexField encH, hexField rEncH, hexField rCLH with
+    | some enc, some rEnc, some rCL =>
+      let ok := statusS == "200" && wantLen == gotLen && wantSum == gotSum && rEnc == enc && rCL == Bytes.ofString wireLen
+      { mismatch := if ok then none else some s!"overlapping response differs from the response alone: len {gotLen} vs {wantLen}, digest equal={wantSum == gotSum}, status {statusS}",
+        predfail := if ok then none else some s!"{tag}: decoded body is not the document + script (len {gotLen} vs {wantLen}; Content-Length ok={rCL == Bytes.ofString wireLen})",
+        nontrivial := true, tags := [tag], sig := "overlap" }
+    | _, _, _ => .badOp
   | _ => .badOp
 
 end TemplVerif.Drive.C20
